@@ -69,6 +69,7 @@ structure SWCfg where
   withExtras : Bool            -- created_by, key/value metadata, unknown thrift fields
   padv : Nat                   -- value used to pad the last bit-packed group (must fit the width)
   noNullCount : Bool := false  -- statistics carry min/max only (`null_count` is an optional member)
+  mrLabels : Bool := false     -- label the level encodings of levels a column does NOT have as BIT_PACKED (4), as parquet-mr does
   fileOffMode : Nat := 0       -- ColumnChunk.file_offset (deprecated, readers must not rely on it): 0 = start of the chunk, 1 = zero, 2 = just past the chunk
 
 /-- the statistics the spec writer puts into a page header (when it writes any): those of the page,
@@ -126,7 +127,7 @@ def specPageBytes (cfg : SWCfg) (c : Col) (codec : Nat) (compress : Bytes → By
     | .valueEncoding e => (e, 3, 3)
     | .defEncoding e => (0, e, 3)
     | .repEncoding e => (0, 3, e)
-    | _ => (0, 3, 3)
+    | _ => (0, if cfg.mrLabels ∧ c.isRequired then 4 else 3, if cfg.mrLabels ∧ c.maxRep = 0 then 4 else 3)
   let dph : TVal := .struct ([(1, .int 5 es.length), (2, .int 5 valEnc), (3, .int 5 defEnc), (4, .int 5 repEnc)] ++ st ++
                             (if cfg.withExtras then extraField else []))
   let hdr : TVal := match mu0 with
